@@ -540,6 +540,18 @@ func exerciseNode(c *mon.Case, st *store.Store, how string, n ipld.Node, keys []
 					c.Violation("C13|oversized-bytes", "%s: reader produced %d bytes from a DAG holding %d payload bytes", how, total, payload)
 				}
 			}},
+			{"read-again-after-error", func(rs io.ReadSeeker) {
+				// keep using the same reader whatever it returned before
+				buf := make([]byte, 3)
+				for i := 0; i < 4; i++ {
+					rs.Read(buf)
+				}
+				rs.Seek(2, io.SeekCurrent)
+				rs.Read(buf)
+				rs.Seek(0, io.SeekEnd)
+				rs.Read(buf)
+				rs.Read(buf)
+			}},
 			{"interleaved", func(rs io.ReadSeeker) {
 				rs.Read(make([]byte, 2))
 				rs.Seek(1, io.SeekStart)
@@ -866,6 +878,48 @@ func TestC13(t *testing.T) {
 					}
 					c.Sig(fmt.Sprintf("stacked|f%d|%s|levels%d", f, variant, levels), true)
 				}
+			})
+		}
+	}
+	// ---- (2c) child shards whose fanout differs from the parent's, short entry names, several links to one child ----
+	for _, pf := range []int{1024, 512, 256, 16} {
+		for _, cf := range []int{8, 16, 256, 1024} {
+			if pf == cf {
+				continue
+			}
+			pf, cf := pf, cf
+			r.Case(fmt.Sprintf("mismatch/p%d/c%d", pf, cf), map[string]any{"parent_fanout": pf, "child_fanout": cf}, func(c *mon.Case) {
+				st := store.New()
+				t5 := pb.Data_HAMTShard
+				mk := func(f int, bf []byte, links []pbLinkSpec) cid.Cid {
+					m := &pb.Data{Type: &t5, HashType: proto.Uint64(0x22), Fanout: proto.Uint64(uint64(f)), Data: bf}
+					return st.PutBlock(1, cid.DagProtobuf, encodePB(mustMarshal(m), true, links))
+				}
+				leaf := st.PutBlock(1, cid.Raw, []byte("v"))
+				cpad, ppad := oracle.PadLen(uint64(cf)), oracle.PadLen(uint64(pf))
+				var cl []pbLinkSpec
+				for i, nm := range []string{"a", "bc", "", "longer-name"} {
+					cl = append(cl, pbLinkSpec{Name: strp(fmt.Sprintf("%0*X%s", cpad, i, nm)), Tsize: u64p(1), Cid: leaf})
+				}
+				child := mk(cf, []byte{0x0f}, cl)
+				var pl []pbLinkSpec
+				for i := 0; i < 3; i++ {
+					pl = append(pl, pbLinkSpec{Name: strp(fmt.Sprintf("%0*X", ppad, i)), Tsize: u64p(9), Cid: child})
+				}
+				pl = append(pl, pbLinkSpec{Name: strp(fmt.Sprintf("%0*Xvalue", ppad, 3)), Tsize: u64p(1), Cid: leaf})
+				root := mk(pf, []byte{0x0f}, pl)
+				// every operation runs on the same reified nodes, several times over
+				exerciseDAG(c, st, root, "mismatched-fanout")
+				ls := st.LinkSystem(true)
+				if raw, err := loadRaw(ls, root); err == nil {
+					if n, err := reify(ls, raw); err == nil && n != nil {
+						paths, links, payload := dagMeasure(st, root)
+						for rep := 0; rep < 3; rep++ {
+							exerciseNode(c, st, fmt.Sprintf("mismatched-fanout-pass%d", rep), n, []string{"a", "bc", "", "value", "0a"}, paths, links, payload)
+						}
+					}
+				}
+				c.Sig(fmt.Sprintf("mismatch|p%d|c%d", pf, cf), true)
 			})
 		}
 	}
